@@ -82,6 +82,17 @@ impl SwiftField for Field61 {
         // Parse optional entry date (4 digits)
         let mut entry_date = None;
         if pos + 4 <= input.len() && input[pos..pos + 4].chars().all(|c| c.is_ascii_digit()) {
+            // MMDD must be a calendar day (29 February allowed: the year is not part of the entry date)
+            let month: u32 = input[pos..pos + 2].parse().unwrap_or(0);
+            let day: u32 = input[pos + 2..pos + 4].parse().unwrap_or(0);
+            if NaiveDate::from_ymd_opt(2000, month, day).is_none() {
+                return Err(ParseError::InvalidFormat {
+                    message: format!(
+                        "Field 61 entry date must be a valid MMDD, found {}",
+                        &input[pos..pos + 4]
+                    ),
+                });
+            }
             entry_date = Some(input[pos..pos + 4].to_string());
             pos += 4;
         }
